@@ -99,14 +99,15 @@ def _rowwise_check(a):
         nogo = [[[cx + a["zone"] * (p[0] - cx), cy + a["zone"] * (p[1] - cy)] for p in pts]]
     budget = a.get("budget_s", 8)
 
-    def zone_clause(fld, what):
-        """none of the boreholes lies strictly inside a no-go zone (1e-6 m); a failure is classified by whether the row of the offending borehole runs through a vertex of the zone"""
+    def zone_clause(fld, what, rotations=None):
+        """none of the boreholes lies strictly inside a no-go zone (1e-6 m); a failure is classified by whether the row of the offending borehole runs through a vertex of the zone
+        (rotations: the rotations a sweep tried - the row direction of the returned field is one of them)"""
         for z in nogo or []:
             inz = [p for p in fld if _inside_convex(z, p, -1e-6)[0]]
             if inz:
                 q = inz[0]
-                rot_ = a.get("rot_deg", 0.0) * DEG_TO_RAD
-                through_vertex = any(abs((v[0] - q[0]) * math.sin(rot_) - (v[1] - q[1]) * math.cos(rot_)) < 1e-6 for v in z)
+                through_vertex = any(abs((v[0] - q[0]) * math.sin(rot_) - (v[1] - q[1]) * math.cos(rot_)) < 1e-6
+                                     for rot_ in (rotations or [a.get("rot_deg", 0.0) * DEG_TO_RAD]) for v in z)
                 return {"why": f"{what}: borehole inside a no-go zone", "point": q, "depth_inside": _inside_convex(z, q, 0.0)[1], "zone": z, "outline": pts, "spacing": s,
                         "rotation_deg": a.get("rot_deg", 0.0), "signature": "inside-no-go/" + ("row-through-a-zone-vertex" if through_vertex else "generic")}
         return None
@@ -278,7 +279,11 @@ def _rowwise_check(a):
                     if not done or not done2:
                         return False, {"why": f"{opt_name} did not terminate", "outline": pts, "sweep": a["sweep"], "spacing": s, "signature": "no-termination/sweep/" + str(_ if not done else res2)}
                     f3 = [list(map(float, p)) for p in res2[0]]
-                    v = outline_clause(f3, opt_name) or zone_clause(f3, opt_name + " (after the same sweep without zones)")
+                    tried, rt_ = [], lo * DEG_TO_RAD
+                    while rt_ < hi * DEG_TO_RAD:
+                        tried.append(rt_)
+                        rt_ += step * DEG_TO_RAD
+                    v = outline_clause(f3, opt_name) or zone_clause(f3, opt_name + " (after the same sweep without zones)", rotations=tried)
                     if v:
                         v["signature"] += "/sweep"
                         return False, v
